@@ -399,6 +399,16 @@ VARIANTS = [
      replace_function(FHS, "_delete_object_only", CM_BAD, "from contextlib import closing, contextmanager")),
     ("C07", "C07.g", "per-call value parked in the shared store object",
      rep_in(FHS, "_move_and_get_checksums", "        object_cid = hex_digests.get(self.algorithm)\n", "        object_cid = hex_digests.get(self.algorithm)\n        self.last_cid = object_cid\n")),
+    ("C18", "C18.f", "pid -> cid memo kept in the shared store object",
+     chain(rep_in(FHS, "__init__", "            self.root = Path(prop_store_path)\n", "            self.root = Path(prop_store_path)\n            self.seen_cids = {}\n"),
+           rep_in(FHS, "_find_object", "        self._check_string(pid, \"pid\")\n", "        self._check_string(pid, \"pid\")\n        self.seen_cids.setdefault(pid, None)\n"))),
+    ("C07", "C07.g", "list of stored pids appended to on the shared store object",
+     chain(rep_in(FHS, "__init__", "            self.root = Path(prop_store_path)\n", "            self.root = Path(prop_store_path)\n            self.recent = []\n"),
+           rep_in(FHS, "_move_and_get_checksums", "        object_cid = hex_digests.get(self.algorithm)\n", "        object_cid = hex_digests.get(self.algorithm)\n        self.recent.append(object_cid)\n"))),
+    ("C11", "C11.g", "metadata path fall-back dropped: relative store path doubles the prefix",
+     rep_in(FHS, "_get_hashstore_metadata_path", "            if os.path.isfile(metadata_relative_path):\n", "            if False:\n")),
+    ("C20", "C20.d", "client default namespace hard-coded instead of read from the store configuration",
+     rep_in(CLI, "main", '        default_formatid = yaml_data["store_metadata_namespace"]\n', '        default_formatid = "https://ns.dataone.org/service/types/v2.0#SystemMetadata"\n')),
     ("C13", "C13.h", "return inside finally swallows the error",
      rep_in(FHS, "_delete_object_only", "        finally:\n            self._release_object_locked_cids(cid)\n", "        finally:\n            self._release_object_locked_cids(cid)\n            return\n")),
 ]
